@@ -1,7 +1,7 @@
 #!/usr/bin/env python3
 """Self-test of the checker, both ways (DESIGN 2.5).
 
-  selftest/run.py [--only ID-substring] [--tests] [--benign-only|--mutants-only] [--all-props] [--corpus|--corpus-only]
+  selftest/run.py [--only ID-substring] [--tests] [--benign-only|--mutants-only] [--all-props] [--corpus|--corpus-only] [--out FILE]
 
 For every entry of mutants.py: copy /repo's working tree to a scratch directory
 outside /repo and /verif, apply the textual edit, run the named property's check
@@ -168,7 +168,8 @@ def main():
         shutil.rmtree(evdir, ignore_errors=True)
         if tgt:
             shutil.rmtree(tgt, ignore_errors=True)
-    with open(os.path.join(HERE, 'last_run.json'), 'w') as f:
+    outp = args[args.index('--out') + 1] if '--out' in args else os.path.join(HERE, 'last_run.json')
+    with open(outp, 'w') as f:
         json.dump(results, f, indent=1)
     print('%d entries, %d not as expected' % (len(results), bad))
     return 1 if bad else 0
